@@ -6,11 +6,12 @@ From Passage Require Import Lib.Bytes Codec.VarInt Codec.Desc Gen.PacketsGen Gen
 Section C01.
   Variable o : oracles.
   Variable cfg : conn_cfg.
-  Variable e : env.
-  Variable ib : inbox.
+  (* any trace the C01 monitor accepts: the M1 traces (c01_accepts) and the byte-level M2
+     traces (c01_accepts2) both are *)
+  Variable tr : list tev.
 
   Let chk := chk_c01 o cfg.
-  Let tr := untime (run1 o cfg e ib).
+  Hypothesis Hacc : ok (step_with chk) m_init tr.
 
   Lemma prefix_reach pre ev post st :
     tr = pre ++ ev :: post -> run (step_with chk) m_init pre = Some st -> reach chk st.
@@ -36,7 +37,7 @@ Section C01.
          end.
   Proof.
     intros pre u n x post Htr.
-    destruct (accepted_event_checked chk tr pre _ post (c01_accepts o cfg e ib) Htr)
+    destruct (accepted_event_checked chk tr pre _ post Hacc Htr)
       as (st & Hrun & [Hi | (q' & Hd & Hc)]).
     { unfold internal_at, internal in Hi. cbn in Hi. rewrite !andb_false_r in Hi. discriminate. }
     unfold chk, chk_c01 in Hc. cbn [is_pkt] in Hc.
@@ -69,7 +70,7 @@ Section C01.
       /\ claimed (h st) = Some (cn, cu) /\ n = cn /\ u = cu.
   Proof.
     intros pre cl host port proto n u secret pk post Htr.
-    destruct (accepted_event_checked chk tr pre _ post (c01_accepts o cfg e ib) Htr)
+    destruct (accepted_event_checked chk tr pre _ post Hacc Htr)
       as (st & Hrun & [Hi | (q' & Hd & Hc)]).
     { unfold internal_at, internal in Hi. cbn in Hi. rewrite !andb_false_r in Hi. discriminate. }
     unfold chk, chk_c01 in Hc.
